@@ -6,7 +6,9 @@
 use litep2p::{verif::kad::*, PeerId};
 use rand::{rngs::StdRng, Rng, SeedableRng};
 use serde_json::{json, Value};
+use std::cell::RefCell;
 use std::collections::{BTreeSet, HashMap, VecDeque};
+use std::rc::Rc;
 use std::num::NonZeroUsize;
 use std::sync::{Arc, Mutex};
 use std::time::{Duration, Instant};
@@ -33,12 +35,17 @@ impl World {
     /// (find_node) or the hash of the record key (everything else).
     fn new(n: usize, by_peer_target: bool, rng: &mut StdRng) -> World {
         let local = mk_peer(rng);
+        let peers: Vec<PeerId> = (0..n).map(|_| mk_peer(rng)).collect();
+        Self::with(local, peers, by_peer_target, rng)
+    }
+
+    /// A world over given peers: a fresh target, the peers ranked by their distance to it.
+    fn with(local: PeerId, mut peers: Vec<PeerId>, by_peer_target: bool, rng: &mut StdRng) -> World {
         let target_peer = mk_peer(rng);
         let mut kb = vec![0u8; 12];
         rng.fill(&mut kb[..]);
         let key = RecordKey::from(kb.clone());
         let th = if by_peer_target { sha256(&target_peer.to_bytes()) } else { sha256(&kb) };
-        let mut peers: Vec<PeerId> = (0..n).map(|_| mk_peer(rng)).collect();
         peers.sort_by_key(|p| xor32(&sha256(&p.to_bytes()), &th));
         let mut rank = HashMap::new();
         rank.insert(local, 0);
@@ -110,7 +117,7 @@ struct Run<'a> {
     w: &'a World,
     c: Cfg,
     q: QueryId,
-    engine: QueryEngine,
+    engine: Rc<RefCell<QueryEngine>>,
     inflight: BTreeSet<i64>,
     contacted: BTreeSet<i64>,
     term: bool,
@@ -123,8 +130,13 @@ struct Run<'a> {
 
 impl<'a> Run<'a> {
     fn start(w: &'a World, c: Cfg, b: usize, src: &str, fault: Option<String>) -> Run<'a> {
-        let mut engine = QueryEngine::new(w.local, c.repl, c.alpha);
-        let q = QueryId(7 + b % 5);
+        let engine = Rc::new(RefCell::new(QueryEngine::new(w.local, c.repl, c.alpha)));
+        Self::start_in(engine, QueryId(7 + b % 5), w, c, b, src, fault)
+    }
+
+    /// Start the lookup `q` in an existing engine (several lookups may share one engine).
+    fn start_in(engine_rc: Rc<RefCell<QueryEngine>>, q: QueryId, w: &'a World, c: Cfg, b: usize, src: &str, fault: Option<String>) -> Run<'a> {
+        let mut engine = engine_rc.borrow_mut();
         let cands: VecDeque<KademliaPeer> = c.init.iter().map(|r| w.kad(*r)).collect();
         let value = vec![1u8, 2, 3];
         match c.sub.as_str() {
@@ -148,11 +160,12 @@ impl<'a> Run<'a> {
             "prov_track" => engine.start_add_provider_to_found_nodes_requests_tracking(q, w.key.clone(), c.init.iter().map(|r| w.peer(*r)).collect(), c.quorum()),
             other => panic!("unknown query kind {other}"),
         }
+        drop(engine);
         let track = c.kind() == "track";
         let mut run = Run {
             w,
             q,
-            engine,
+            engine: engine_rc,
             inflight: if track { c.init.iter().cloned().collect() } else { BTreeSet::new() },
             contacted: BTreeSet::new(),
             term: false,
@@ -174,7 +187,7 @@ impl<'a> Run<'a> {
 
     /// projection of the real context, in ranks
     fn state(&self) -> Value {
-        let Some(s) = self.engine.verif_query_state(self.q) else {
+        let Some(s) = self.engine.borrow().verif_query_state(self.q) else {
             return json!({"done": 1});
         };
         let set = |v: &Vec<PeerId>| -> Vec<i64> {
@@ -197,8 +210,17 @@ impl<'a> Run<'a> {
 
     /// `next_action`, recorded. Returns the kind of action.
     fn next(&mut self) -> String {
-        let engine = &mut self.engine;
-        let act = catch(|| engine.next_action());
+        let act = self.poll();
+        self.record_next(act)
+    }
+
+    fn poll(&mut self) -> Result<Option<QueryAction>, String> {
+        let mut engine = self.engine.borrow_mut();
+        catch(|| engine.next_action())
+    }
+
+    /// Record the result of a `next_action` call that concerns this lookup.
+    fn record_next(&mut self, act: Result<Option<QueryAction>, String>) -> String {
         let act = match act {
             Ok(a) => a,
             Err(msg) => {
@@ -268,8 +290,11 @@ impl<'a> Run<'a> {
             "prov" => KademliaMessage::GetProviders { key: None, peers: kp, providers: provs.iter().map(|r| self.w.kad(*r)).collect() },
             _ => KademliaMessage::PutValue { record: Record::new(self.w.key.clone(), vec![1]) },
         };
-        let (engine, q, peer) = (&mut self.engine, self.q, self.w.peer(p));
-        let r = catch(|| engine.register_response(q, peer, msg));
+        let (q, peer) = (self.q, self.w.peer(p));
+        let r = {
+            let mut engine = self.engine.borrow_mut();
+            catch(|| engine.register_response(q, peer, msg))
+        };
         self.inflight.remove(&p);
         let o = json!({"op": "resp", "p": p, "peers": peers, "rec": rec as i64, "provs": provs});
         match r {
@@ -279,14 +304,17 @@ impl<'a> Run<'a> {
     }
 
     fn simple(&mut self, op: &str, p: i64) {
-        let (engine, q, peer) = (&mut self.engine, self.q, self.w.peer(p));
-        let r = catch(|| match op {
-            "fail" => engine.register_response_failure(q, peer),
-            "sendok" => engine.register_send_success(q, peer),
-            "sendfail" => engine.register_send_failure(q, peer),
-            "peerfail" => engine.register_peer_failure(q, peer),
-            _ => unreachable!(),
-        });
+        let (q, peer) = (self.q, self.w.peer(p));
+        let r = {
+            let mut engine = self.engine.borrow_mut();
+            catch(|| match op {
+                "fail" => engine.register_response_failure(q, peer),
+                "sendok" => engine.register_send_success(q, peer),
+                "sendfail" => engine.register_send_failure(q, peer),
+                "peerfail" => engine.register_peer_failure(q, peer),
+                _ => unreachable!(),
+            })
+        };
         self.inflight.remove(&p);
         // register_peer_failure = send failure + response failure (Kademlia::disconnect_peer)
         let name = if op == "peerfail" { if self.c.kind() == "track" { "sendfail" } else { "fail" } } else { op };
@@ -476,6 +504,121 @@ fn run_random(r: usize, seed: u64, fault: &Option<String>) -> Run<'static> {
     run
 }
 
+fn action_query(a: &QueryAction) -> QueryId {
+    match a {
+        QueryAction::SendMessage { query, .. }
+        | QueryAction::FindNodeQuerySucceeded { query, .. }
+        | QueryAction::PutRecordToFoundNodes { query, .. }
+        | QueryAction::PutRecordQuerySucceeded { query, .. }
+        | QueryAction::AddProviderToFoundNodes { query, .. }
+        | QueryAction::AddProviderQuerySucceeded { query, .. }
+        | QueryAction::QuerySucceeded { query }
+        | QueryAction::QueryFailed { query } => *query,
+        QueryAction::GetRecordQueryDone { query_id }
+        | QueryAction::GetRecordPartialResult { query_id, .. }
+        | QueryAction::GetProvidersQueryDone { query_id, .. } => *query_id,
+    }
+}
+
+/// Two lookups in one engine (`QueryEngine.queries`): every `next_action` result belongs to one
+/// of them (or, if `None`, to both); each lookup's projection of the joint execution is recorded
+/// as its own segment and must on its own be a lookup C15 allows.
+fn run_pair(r: usize, seed: u64, fault: &Option<String>) -> Vec<Run<'static>> {
+    let mut rng = StdRng::seed_from_u64(seed.wrapping_mul(0x2545f4914f6cdd1d) ^ (r as u64) << 4 ^ 0x9a12);
+    let n = [5usize, 8, 12, 16][rng.gen_range(0..4)];
+    let alpha = rng.gen_range(1..=3usize);
+    let repl = [1usize, 2, 3, 20][rng.gen_range(0..4)];
+    let local = mk_peer(&mut rng);
+    let peers: Vec<PeerId> = (0..n).map(|_| mk_peer(&mut rng)).collect();
+    let engine = Rc::new(RefCell::new(QueryEngine::new(local, repl, alpha)));
+    let subs = ["find_node", "get_record", "get_providers", "put_record", "put_track"];
+    let mut runs: Vec<Run<'static>> = vec![];
+    let mut knows: Vec<Vec<Vec<i64>>> = vec![];
+    for (j, q) in [QueryId(3), QueryId(11)].into_iter().enumerate() {
+        let sub = subs[(r + 2 * j + rng.gen_range(0..2)) % subs.len()];
+        let w: &'static World = Box::leak(Box::new(World::with(local, peers.clone(), sub == "find_node", &mut rng)));
+        let mut init: Vec<i64> = (0..rng.gen_range(1..=4)).map(|_| rng.gen_range(1..=n as i64)).collect();
+        init.sort();
+        init.dedup();
+        let c = Cfg { sub: sub.into(), alpha, repl, need: rng.gen_range(1..=2), localrec: false, known: vec![], init, n };
+        runs.push(Run::start_in(engine.clone(), q, w, c, r, "pair", fault.clone()));
+        let mut kn: Vec<Vec<i64>> = vec![];
+        for p in 0..=n as i64 {
+            let mut v = vec![];
+            for _ in 0..rng.gen_range(0..5) {
+                let closer: bool = rng.gen();
+                v.push(if p > 1 && closer { rng.gen_range(1..p) } else { rng.gen_range(1..=n as i64) });
+            }
+            kn.push(v);
+        }
+        knows.push(kn);
+    }
+    let dispatch = |runs: &mut Vec<Run<'static>>| -> String {
+        let act = runs[0].poll();
+        match act {
+            Ok(Some(a)) => {
+                let j = if action_query(&a) == runs[0].q { 0 } else { 1 };
+                runs[j].record_next(Ok(Some(a)))
+            }
+            Ok(None) => {
+                runs[0].record_next(Ok(None));
+                runs[1].record_next(Ok(None))
+            }
+            Err(m) => {
+                runs[0].record_next(Err(m.clone()));
+                runs[1].record_next(Err(m))
+            }
+        }
+    };
+    let answer = |runs: &mut Vec<Run<'static>>, rng: &mut StdRng, knows: &Vec<Vec<Vec<i64>>>| -> bool {
+        let cands: Vec<(usize, i64)> = (0..2).flat_map(|j| runs[j].inflight.iter().map(move |p| (j, *p)).collect::<Vec<_>>()).collect();
+        if cands.is_empty() {
+            return false;
+        }
+        let (j, p) = cands[rng.gen_range(0..cands.len())];
+        let kind = runs[j].c.kind();
+        if kind == "track" {
+            runs[j].simple(["sendok", "sendfail"][rng.gen_range(0..2)], p);
+        } else if rng.gen_range(0..5) == 0 {
+            runs[j].simple("fail", p);
+        } else {
+            let mut peers = knows[j][p as usize].clone();
+            peers.sort();
+            peers.dedup();
+            let provs = if kind == "prov" && p % 2 == 0 { vec![p] } else { vec![] };
+            runs[j].resp(p, &peers, kind == "get" && p % 3 == 0, &provs);
+        }
+        true
+    };
+    for _ in 0..rng.gen_range(4..40) {
+        if rng.gen_range(0..100) < 60 {
+            if dispatch(&mut runs) == "panic" {
+                return runs;
+            }
+        } else {
+            answer(&mut runs, &mut rng, &knows);
+        }
+    }
+    // drain: the environment answers everything
+    for _ in 0..(80 * (n + 4)) {
+        let a = dispatch(&mut runs);
+        if a == "panic" {
+            return runs;
+        }
+        if a != "none" {
+            continue;
+        }
+        if !answer(&mut runs, &mut rng, &knows) {
+            for run in runs.iter_mut() {
+                run.log(json!({"op": "quiesce"}), json!("ok"));
+            }
+            break;
+        }
+    }
+    dispatch(&mut runs);
+    runs
+}
+
 /// Requests older than the peer timeout (10 s in the code) no longer count towards the
 /// parallelism factor; the fresh ones still must.  Real time: the run is discarded (never
 /// judged) unless every request counted as fresh is younger than a third of the timeout.
@@ -489,7 +632,7 @@ fn run_stale(r: usize, seed: u64, alpha: usize) -> Option<Run<'static>> {
         run.next();
     }
     let old: Vec<i64> = run.inflight.iter().cloned().collect();
-    let timeout = Duration::from_millis(run.engine.verif_query_state(run.q)?.peer_timeout_ms);
+    let timeout = Duration::from_millis(run.engine.borrow().verif_query_state(run.q)?.peer_timeout_ms);
     std::thread::sleep(timeout + timeout / 20);
     run.log(json!({"op": "stale", "ps": old}), json!("ok"));
     let t0 = Instant::now();
@@ -515,6 +658,7 @@ fn main() {
     enum Job {
         Beh(usize, Value),
         Rand(usize),
+        Pair(usize),
         Stale(usize, usize),
     }
     let mut jobs = vec![];
@@ -530,6 +674,9 @@ fn main() {
     for r in 0..nrandom {
         jobs.push(Job::Rand(r));
     }
+    for r in 0..args.u64("pairs", 0) as usize {
+        jobs.push(Job::Pair(r));
+    }
     let njobs = jobs.len();
     let jobs = Arc::new(Mutex::new(jobs.into_iter().enumerate().rev().collect::<Vec<_>>()));
     let results = Arc::new(Mutex::new(Vec::<(usize, Vec<String>, u64, u64, Option<String>, String)>::new()));
@@ -543,21 +690,32 @@ fn main() {
             // Outside the stale-request scenario every request must stay fresh (younger than the
             // engine's 10 s peer timeout): an execution that took longer than 3 s of wall time
             // (a starved thread on a loaded machine) is re-run, and dropped if that keeps happening.
-            let mut run = None;
+            let mut runs: Option<Vec<Run<'static>>> = None;
             for _attempt in 0..3 {
                 let t = Instant::now();
-                run = match &job {
-                    Job::Beh(i, b) => Some(run_behaviour(*i, b, seed, &fault)),
-                    Job::Rand(r) => Some(run_random(*r, seed, &fault)),
-                    Job::Stale(r, alpha) => run_stale(*r, seed, *alpha),
+                runs = match &job {
+                    Job::Beh(i, b) => Some(vec![run_behaviour(*i, b, seed, &fault)]),
+                    Job::Rand(r) => Some(vec![run_random(*r, seed, &fault)]),
+                    Job::Pair(r) => Some(run_pair(*r, seed, &fault)),
+                    Job::Stale(r, alpha) => run_stale(*r, seed, *alpha).map(|x| vec![x]),
                 };
                 if matches!(job, Job::Stale(..)) || t.elapsed() < Duration::from_secs(3) {
                     break;
                 }
-                run = None;
+                runs = None;
             }
             // stale-request executions are started first (they sleep) but written last
-            let n = if run.as_ref().map(|r| r.lines[0].contains("\"src\":\"stale\"")).unwrap_or(false) { n + 1_000_000_000 } else { n };
+            let n = if matches!(job, Job::Stale(..)) { n + 1_000_000_000 } else { n };
+            let run = runs.map(|mut v| {
+                let mut first = v.remove(0);
+                for other in v {
+                    first.lines.extend(other.lines);
+                    first.events += other.events;
+                    first.sends += other.sends;
+                    first.c.sub = "pair".into();
+                }
+                first
+            });
             match run {
                 Some(run) => results.lock().unwrap().push((n, run.lines, run.events, run.sends, run.terminal, run.c.sub.clone())),
                 None => *discarded.lock().unwrap() += 1,
